@@ -1288,6 +1288,14 @@ let rec run toks =
     Hashtbl.replace idxsets r (fan, ta);
     emit (Printf.sprintf "%s tab=%s" r (Stdlib.String.concat "," (List.map (function
         | Some i -> string_of_int (int_of_nat i) | None -> "inf") tb)))
+  | "lvl" :: k1 :: k2 :: _ ->
+    (* the generated Gen/Levels.v definitions, run on the same inputs as the C++ functions *)
+    let a = z_of_int (int_of_string k1) and b = z_of_int (int_of_string k2) in
+    let v = function Ok z -> int_of_z z | Err _ -> raise Unsupported in
+    emit (Printf.sprintf "lvl above=%d mdown=%d mup=%d mtop=%d mtopu=%d unp=%d pr=%d ddown=%d dup=%d dtop=%d"
+            (v (isLevelAbove a b)) (v (mXD_downLevel a)) (v (mXD_upLevel a)) (v (mXD_topLevel a b))
+            (v (mXD_topUnprimed a b)) (v (mXD_unprimedOfLevel a)) (v (mXD_primedOfLevel a))
+            (v (mDD_downLevel a)) (v (mDD_upLevel a)) (v (mDD_topLevel a b)))
   | "prodset" :: a :: fn :: toks ->
     (* product set: per variable (variable 1 first) the allowed values; never tabulated *)
     Hashtbl.remove edges a; Hashtbl.remove evtabs a;
